@@ -265,7 +265,7 @@ LAUNCHES = ["arn:aws:states:::states:startExecution", "arn:aws:states:::states:s
 def children_machines(rng, forms=None):
     """-> (parent, child): a random machine some of whose Task states (at any depth) launch the child machine, fire-and-forget or
     waiting for it (.sync, .sync:2), some with a Task timeout shorter than the child needs (the child is then cancelled)"""
-    gc = cp.Gen(rng, fanout=False)
+    gc = cp.Gen(rng, fanout=rng.random() < 0.35, max_depth=1)        # some children are fan-outs themselves (their top level state can be a Map / Parallel)
     gc.n = 100                                  # state names distinct from the parent's
     child = gc.machine(length=rng.randrange(1, 4))
     if rng.random() < 0.5:                      # make sure that many children take some time: a Wait first
